@@ -10,6 +10,7 @@ CONSTANTS
     ReadVariant = "tail"
     Emit = "hist"
     Regs = {}
+    InitMem = "pattern"
     DisVariant = "masked"
 SPECIFICATION SpecMem
 VIEW View
